@@ -273,8 +273,10 @@ impl ShellVariable {
                 ShellValue::String(base) => match value {
                     ShellValueLiteral::Scalar(suffix) => {
                         if treat_as_int {
-                            let int_value = base.parse::<i64>().unwrap_or(0)
-                                + suffix.parse::<i64>().unwrap_or(0);
+                            let int_value = base
+                                .parse::<i64>()
+                                .unwrap_or(0)
+                                .wrapping_add(suffix.parse::<i64>().unwrap_or(0));
                             base.clear();
                             base.push_str(int_value.to_string().as_str());
                         } else {
@@ -485,7 +487,7 @@ impl ShellVariable {
                     // This isn't really title-case; only the first character is capitalized.
                     *s = s.to_lowercase();
                     if let Some(c) = s.chars().next() {
-                        s.replace_range(0..1, &c.to_uppercase().to_string());
+                        s.replace_range(0..c.len_utf8(), &c.to_uppercase().to_string());
                     }
                 }
             }
